@@ -1116,3 +1116,26 @@ def bound_guards(body):
             out.append((sb, t, cont_truth == (t[1] in EQ_TRUE)))
             break
     return out
+
+
+def topo_rank(body):
+    """block -> rank in a topological order of the acyclic (back edges cut, non-cleanup) CFG"""
+    be = set(body.back_edges())
+    order, seen = [], set()
+
+    def visit(b0):
+        stack = [(b0, iter([t for t, _ in body.succ_edges(b0) if (b0, t) not in be and t not in body.cleanup]))]
+        seen.add(b0)
+        while stack:
+            b, it = stack[-1]
+            for t in it:
+                if t not in seen:
+                    seen.add(t)
+                    stack.append((t, iter([u for u, _ in body.succ_edges(t) if (t, u) not in be and u not in body.cleanup])))
+                    break
+            else:
+                order.append(b)
+                stack.pop()
+    visit(0)
+    order.reverse()
+    return {b: i for i, b in enumerate(order)}
